@@ -342,6 +342,10 @@ func checkCodec(c CodecCase, cv *cov) (v *evid.Violation) {
 			}
 			off += len(ones[i])
 		}
+		if sr.TermCalls > 0 {
+			v = evid.Failf("stream reader: after every byte of the %d-byte stream had been delivered, the reader asked its source for more (%d further Read calls) while decoding values that were already complete; on a connection that stays open such a read blocks and the decode does not return (source plan %+v)", len(want), sr.TermCalls, sr.Plan)
+			return
+		}
 		if _, err := br.Next(1); err == nil {
 			v = evid.Failf("stream reader is not at the end of the stream after decoding every item")
 			return
